@@ -26,6 +26,15 @@ pub fn tree_to_json(a: &Allocator, n: NodePtr) -> Value {
 }
 
 pub fn json_to_tree(a: &mut Allocator, v: &Value) -> NodePtr {
+    if let Some(items) = v.get("l") {
+        // flat improper list: {"l": [e0, e1, ...], "t": tail}
+        let mut tail = json_to_tree(a, &v["t"]);
+        for e in items.as_array().unwrap().iter().rev() {
+            let h = json_to_tree(a, e);
+            tail = a.new_pair(h, tail).unwrap();
+        }
+        return tail;
+    }
     if let Some(p) = v.get("p") {
         let l = json_to_tree(a, &p[0]);
         let r = json_to_tree(a, &p[1]);
@@ -529,6 +538,37 @@ fn read_new_file_k(case: &Value, inputs: &Value) -> Value {
     out
 }
 
+// compile a modern program and run it on an argument tree
+fn compile_run_k(_case: &Value, inputs: &Value) -> Value {
+    use chialisp::classic::clvm_tools::stages::stage_0::TRunProgram;
+    use chialisp::compiler::clvm::convert_to_clvm_rs;
+    use chialisp::compiler::compiler::{compile_file, DefaultCompilerOpts};
+    use chialisp::compiler::comptypes::CompilerOpts;
+    use std::collections::HashMap;
+    let mut a = Allocator::new();
+    let runner = Rc::new(DefaultProgramRunner::new());
+    let mut opts: Rc<dyn CompilerOpts> = Rc::new(DefaultCompilerOpts::new("*t*"));
+    if inputs["optimize"].as_bool().unwrap_or(false) {
+        opts = opts.set_optimize(true);
+    }
+    let mut syms = HashMap::new();
+    let src = inputs["source"].as_str().unwrap();
+    let compiled = match compile_file(&mut a, runner.clone(), opts, src, &mut syms) {
+        Ok(c) => c,
+        Err(e) => return json!({"compile_err": e.1}),
+    };
+    let prog = match convert_to_clvm_rs(&mut a, Rc::new(compiled)) {
+        Ok(p) => p,
+        Err(_) => return json!({"compile_err": "convert"}),
+    };
+    let args = json_to_tree(&mut a, &inputs["args"]);
+    let result = match runner.run_program(&mut a, prog, args, None) {
+        Ok(r) => json!({"ok": tree_to_json(&a, r.1)}),
+        Err(_) => json!({"err": true}),
+    };
+    json!({"compiled": tree_to_json(&a, prog), "result": result})
+}
+
 // assemble(text) -> tree (used to evaluate constant patterns natively)
 fn assemble_k(_case: &Value, inputs: &Value) -> Value {
     let mut a = Allocator::new();
@@ -543,6 +583,8 @@ pub fn dispatch(kernel: &str, case: &Value, inputs: &Value) -> Value {
         "assemble" => assemble_k(case, inputs),
         "int_from_bytes" => int_from_bytes_k(case, inputs),
         "decode" => decode_k(case, inputs),
+        "name_lookup" => compile_run_k(case, inputs),
+        "compile_run" => compile_run_k(case, inputs),
         "read_new_file" => read_new_file_k(case, inputs),
         "atomic_write" => atomic_write_k(case, inputs),
         "intmode" => intmode_k(case, inputs),
